@@ -208,7 +208,7 @@ def run(ctx):
         if not guarded:
             rf.violate(fn.id, "filter-clause-dropped", f"an AggregateExpr is built at line {ln} without any branch on the parsed `FILTER (WHERE …)` clause: the clause is accepted by "
                        "the parser and silently ignored, `count(*) FILTER (WHERE x > 5)` counts every row", rec["file"], ln)
-    return [r, rule_valid(facts, impls), rule_simul(facts), rf, rule_nanorder(facts)]
+    return [r, rule_valid(facts, impls), rule_simul(facts), rf, rule_nanorder(facts), rule_hashcanon(facts)]
 
 
 def rule_nanorder(facts):
@@ -240,6 +240,44 @@ def rule_nanorder(facts):
             r.violate(rec["id"], "nan-order-dependent", "the min/max replace decision uses only `<`/`>`: with float input the result depends on whether a NaN arrives before or "
                       "after the other values (and on how partial states are merged)", rec["file"], rec["line"])
     return r
+
+
+def float_canon(facts, rule, desc, fn_pred, bits_calls, need_nan, why):
+    """The float impls of a raw-bits consumer (hash / sort key) must canonicalise values that compare equal but differ in bits:
+    0.0 vs -0.0 (and, for ordering, the NaN payload/sign). Decided per impl: a float equality test against the value exists (and an
+    is_nan test when `need_nan`), and the operand of the raw-bits call is not the unmodified receiver on every path (its local is
+    assigned on more than one path)."""
+    r = RuleResult(rule, desc, floor=3)
+    for rec in facts.fns_matching(fn_pred):
+        fn = Fn(rec)
+        r.functions.add(fn.id)
+        zero = any(rv[0] == "bin" and rv[1] == "Eq" and str(rv[4]) in ("f32", "f64") for b, i, pl, rv, ln in fn.assigns()) or \
+            any(c.name.endswith("f16 as std::cmp::PartialEq>::eq") for c in fn.calls())
+        nan = any(c.name.endswith("::is_nan") for c in fn.calls()) or \
+            any(rv[0] == "bin" and rv[1] == "Ne" and str(rv[4]) in ("f32", "f64") for b, i, pl, rv, ln in fn.assigns())
+        bits = [c for c in fn.calls() if c.name.rsplit("::", 1)[-1] in bits_calls]
+        merged = bool(bits)
+        for c in bits:
+            a = c.args[0]
+            if a[0] in ("c", "m"):
+                o = fn.origin(a, at=c.bb)
+                if o[0] == "arg":
+                    merged = False      # raw receiver on this path
+        ok = zero and merged and (nan or not need_nan)
+        r.inst({"fn": fn.id, "zero_test": zero, "nan_test": nan, "bits_of_canonical_value": merged}, ok)
+        if not bits:
+            r.missing_anchor(f"{fn.id}: no raw-bits call ({'/'.join(bits_calls)})")
+        elif not ok:
+            r.violate(fn.id, "float-bits-not-canonical", why, rec["file"], rec["line"])
+    return r
+
+
+def rule_hashcanon(facts):
+    return float_canon(facts, "C07-HASHCANON", "float hashing canonicalises the sign of zero before taking the bits",
+                       lambda i: i.endswith("compute::hash::HashValue>::hash_one") and i.split(" as ")[0].lstrip("<") in ("f32", "f64", "half::f16", "half::binary16::f16"),
+                       ("to_ne_bytes", "to_bits", "to_le_bytes", "to_be_bytes"), False,
+                       "the hash is taken over the raw bits of the float: 0.0 and -0.0 are equal under `=` but land in different hash buckets, so GROUP BY / DISTINCT "
+                       "split them and a hash join misses the pair that the nested-loop join finds")
 
 
 CLAIM = {
